@@ -1278,6 +1278,26 @@ func runCrafted(o *Out, r *rand.Rand, st *c13stats) {
 			runItem(o, it2, "crafted-account-encoding", st)
 		}
 	}
+	// account tries whose keys are SHORTER than an address hash (31 or 30 bytes): the proof for such a key, offered for a 32-byte
+	// address hash that begins with it, reaches a leaf while part of the path is left over - no account of that hash exists
+	for _, kl := range []int{31, 30, 16} {
+		ak := genKeys(r, 24, kl)
+		av := make([][]byte, len(ak))
+		good, _ := rlp.EncodeToBytes(&types.StateAccount{Nonce: 1, Balance: uint256.NewInt(1), Root: types.EmptyRootHash, CodeHash: types.EmptyCodeHash[:]})
+		for i := range ak {
+			av[i] = good
+		}
+		at := buildTrie(ak, av)
+		bh := c13RandHash(r)
+		for i := 0; i < 6; i++ {
+			ah := append(bytes.Clone(ak[i]), c13RandHash(r)[:32-kl]...)
+			it := c13item{typ: state.ContractByteCodeType, nh: types.EmptyCodeHash[:], ah: ah, bh: bh, aproof: at.prove(ak[i]), code: lit(nil), oracle: []oracleEntry{{bh, at.root}}}
+			runItem(o, it, "crafted-short-account-key", st)
+			it2 := c13item{typ: state.ContractStorageTrieNodeType, nh: crypto.Keccak256([]byte{0x80}), ah: ah, bh: bh, proof: [][]byte{{0x80}}, aproof: at.prove(ak[i]),
+				oracle: []oracleEntry{{bh, at.root}}}
+			runItem(o, it2, "crafted-short-account-key", st)
+		}
+	}
 }
 
 // ---------------------------------------------------------------- DecodeTrieNode + TraverseTrieNode on generated nodes
